@@ -596,6 +596,13 @@ func runSequence(e *env, no int, avoid map[string]bool) {
 		s.r = saved
 		e.jwrite("Q", c.no, nil, "")
 	}
+	if no%4 == 2 && e.spec.Batch%2 == 0 && !e.aborted {
+		saved := s.r
+		s.r = vlib.NewRand(e.spec.Seed, fmt.Sprintf("C13/formatskeys/%d", e.spec.Batch), uint64(no))
+		s.stepFormatsAndKeys()
+		s.r = saved
+		e.jwrite("Q", c.no, nil, "")
+	}
 	steps := r.Range(5, 24)
 	for i := 0; i < steps && !e.aborted; i++ {
 		switch k := r.Intn(100); {
